@@ -42,10 +42,10 @@ class FrameItem(EFLRItem):
         self.index_min = NumericAttribute('index_min')
         self.index_max = NumericAttribute('index_max')
 
-        super().__init__(name, parent=parent, **kwargs)
-
         #: index characteristics derived from the data at the last write: (attribute, part) -> assigned value
         self._derived_from_data: dict = {}
+
+        super().__init__(name, parent=parent, **kwargs)
 
     @staticmethod
     def convert_encrypted(value: Union[str, int, float, bool]) -> int:
